@@ -113,7 +113,8 @@ pub fn run(ctx: &mut Ctx, o: &RichOpts) {
         let kb = match hk {
             Some((hkid, hkalg)) if o.kb_on || r.gen_bool(0.6) => KbArgs {
                 nonce: Some(rstr(&mut r, &o.tree)),
-                aud: Some(["https://verifier.example", "aud", ""][r.gen_range(0..3)].to_string()),
+                // (audiences and nonces are opaque strings: also ones that look like JSON)
+                aud: Some(["https://verifier.example", "aud", "", "[\"https://verifier.example\"]", "{\"a\":1}", "null", "123", " a ", "a\"b", "\u{e9}\u{1f600}"][r.gen_range(0..10)].to_string()),
                 key: Some(hkid.to_string()),
                 // the documented default of the KB-JWT algorithm is ES256, whatever the issuer's algorithm is
                 alg: if hkalg == "ES256" && r.gen_bool(0.4) { None } else { Some(hkalg.to_string()) },
